@@ -125,6 +125,13 @@ def check(run, mod, args):
 	targets = mod.targets(run.tier) if callable(getattr(mod, 'targets', None)) else mod.TARGETS
 	for t in targets:
 		qual, inst, override = (t + (None, None))[:3] if isinstance(t, tuple) else (t, None, None)
+		regfn = t[3] if isinstance(t, tuple) and len(t) > 3 else None
+		if regfn is not None:
+			# this target is verified against its own set of contracts (e.g. a function that other targets only see through a ghost contract)
+			eng.registry = Registry()
+			regfn(eng.registry)
+		else:
+			eng.registry = reg
 		try:
 			eng.verify_function(qual, inst, override)
 		except (Unsupported, CyFrontError, PathLimit) as e:
